@@ -47,7 +47,7 @@ type reqRec struct {
 
 type stubServer struct {
 	mu      sync.Mutex
-	maxReqs int  // beyond this many requests the server stalls and flags a request storm (default 3000)
+	maxReqs int // beyond this many requests the server stalls and flags a request storm (default 3000)
 	storm   bool
 	log     []reqRec
 	handler func(n int, path string, rawQuery string, req *http.Request) srvResp
@@ -319,21 +319,21 @@ type delivered struct {
 }
 
 type cliObs struct {
-	Tracks     []*Track
-	Units      [][]delivered // per reported track
-	OnTracksN  int
-	DecodeErrs []string
-	WaitErr    error
-	WaitGot    bool
-	SecondErr  bool // a second value was received from Wait()
-	Wedged     bool // Wait() yielded nothing within the virtual horizon although Close was not called
-	AfterClose bool // Wait() yielded only after Close
-	Panics     []string
-	Leaked     bool
+	Tracks           []*Track
+	Units            [][]delivered // per reported track
+	OnTracksN        int
+	DecodeErrs       []string
+	WaitErr          error
+	WaitGot          bool
+	SecondErr        bool // a second value was received from Wait()
+	Wedged           bool // Wait() yielded nothing within the virtual horizon although Close was not called
+	AfterClose       bool // Wait() yielded only after Close
+	Panics           []string
+	Leaked           bool
 	CallbackAfterEnd int
-	Storm      bool // the client issued more requests than the scripted server allows (request loop without pacing)
-	Reqs       []reqRec
-	Elapsed    time.Duration
+	Storm            bool // the client issued more requests than the scripted server allows (request loop without pacing)
+	Reqs             []reqRec
+	Elapsed          time.Duration
 }
 
 type cliOpts struct {
